@@ -116,3 +116,91 @@ package ckks
 //@ noescape Evaluator.Rotate op0
 //@   property C09
 
+
+// ==== property C06, per-call clauses (no floating point involved): what one call of Add / Sub does to the
+// ==== ring elements and the recorded degree / scale when no rescaling of an operand is needed ====
+// ---- ciphertext +- ciphertext at EQUAL scales, degrees (1,1), (1,2), (2,1), receiver distinct or one of
+// ---- the operands: component by component the sum / difference in the ring; a component only one
+// ---- operand has is copied, negated when it is the subtrahend's; the output has the larger degree
+//@ afunc Evaluator.Add#ct
+//@   property C06
+//@   dyn op1 *rlwe.Ciphertext
+//@   case len(op0.Value) == 2 && len(op1.Value) == 2 && len(opOut.Value) == 2
+//@   case len(op0.Value) == 2 && len(op1.Value) == 3 && len(opOut.Value) == 3
+//@   case len(op0.Value) == 3 && len(op1.Value) == 2 && len(opOut.Value) == 3
+//@   case len(op0.Value) == 2 && len(op1.Value) == 3 && len(opOut.Value) == 2
+//@   case len(op0.Value) == 2 && len(op1.Value) == 2 ; alias opOut = op0
+//@   case len(op0.Value) == 2 && len(op1.Value) == 2 ; alias opOut = op1
+//@   requires old(cmpval(op0.MetaData.PlaintextMetaData.Scale, op1.MetaData.PlaintextMetaData.Scale)) == 0
+//@   requires isntt(op0.Value[0]) && isntt(op0.Value[1]) && isntt(op1.Value[0]) && isntt(op1.Value[1]) && mexp(op0.Value[0]) == 0 && mexp(op0.Value[1]) == 0 && mexp(op1.Value[0]) == 0 && mexp(op1.Value[1]) == 0
+//@   ensures implies(isnil(err), val(opOut.Value[0]) == old(val(op0.Value[0])) + old(val(op1.Value[0])) && val(opOut.Value[1]) == old(val(op0.Value[1])) + old(val(op1.Value[1])))
+//@   ensures implies(isnil(err) && len(op0.Value) == 3 && len(op1.Value) == 2, len(opOut.Value) == 3 && val(opOut.Value[2]) == old(val(op0.Value[2])))
+//@   ensures implies(isnil(err) && len(op0.Value) == 2 && len(op1.Value) == 3, len(opOut.Value) == 3 && val(opOut.Value[2]) == old(val(op1.Value[2])))
+//@   ensures implies(isnil(err) && len(op0.Value) == 2 && len(op1.Value) == 2, len(opOut.Value) == 2)
+
+//@ afunc Evaluator.Sub#ct
+//@   property C06
+//@   dyn op1 *rlwe.Ciphertext
+//@   case len(op0.Value) == 2 && len(op1.Value) == 2 && len(opOut.Value) == 2
+//@   case len(op0.Value) == 2 && len(op1.Value) == 3 && len(opOut.Value) == 3
+//@   case len(op0.Value) == 3 && len(op1.Value) == 2 && len(opOut.Value) == 3
+//@   case len(op0.Value) == 2 && len(op1.Value) == 3 && len(opOut.Value) == 2
+//@   case len(op0.Value) == 2 && len(op1.Value) == 2 ; alias opOut = op0
+//@   case len(op0.Value) == 2 && len(op1.Value) == 2 ; alias opOut = op1
+//@   requires old(cmpval(op0.MetaData.PlaintextMetaData.Scale, op1.MetaData.PlaintextMetaData.Scale)) == 0
+//@   requires isntt(op0.Value[0]) && isntt(op0.Value[1]) && isntt(op1.Value[0]) && isntt(op1.Value[1]) && mexp(op0.Value[0]) == 0 && mexp(op0.Value[1]) == 0 && mexp(op1.Value[0]) == 0 && mexp(op1.Value[1]) == 0
+//@   ensures implies(isnil(err), val(opOut.Value[0]) == old(val(op0.Value[0])) - old(val(op1.Value[0])) && val(opOut.Value[1]) == old(val(op0.Value[1])) - old(val(op1.Value[1])))
+//@   ensures implies(isnil(err) && len(op0.Value) == 3 && len(op1.Value) == 2, len(opOut.Value) == 3 && val(opOut.Value[2]) == old(val(op0.Value[2])))
+//@   ensures implies(isnil(err) && len(op0.Value) == 2 && len(op1.Value) == 3, len(opOut.Value) == 3 && val(opOut.Value[2]) == 0 - old(val(op1.Value[2])))
+//@   ensures implies(isnil(err) && len(op0.Value) == 2 && len(op1.Value) == 2, len(opOut.Value) == 2)
+
+// ---- ciphertext +- scalar: the scalar is encoded at the scale of the ciphertext, so the output records
+// ---- the scale of the input whatever the receiver held (finding F34), has the degree of the input,
+// ---- and the components the operation does not touch are copied
+//@ afunc Evaluator.Add#scalarscale
+//@   property C06
+//@   dyn op1 float64
+//@   case len(op0.Value) == 2 && len(opOut.Value) == 2
+//@   case len(op0.Value) == 3 && len(opOut.Value) == 2
+//@   case len(op0.Value) == 2 && len(opOut.Value) == 3
+//@   ensures implies(isnil(err), sameval(opOut.MetaData.PlaintextMetaData.Scale, old(op0.MetaData.PlaintextMetaData.Scale)))
+//@   ensures implies(isnil(err), len(opOut.Value) == len(op0.Value) && val(opOut.Value[1]) == old(val(op0.Value[1])))
+
+//@ afunc Evaluator.Sub#scalarscale
+//@   property C06
+//@   dyn op1 float64
+//@   case len(op0.Value) == 2 && len(opOut.Value) == 2
+//@   case len(op0.Value) == 3 && len(opOut.Value) == 2
+//@   case len(op0.Value) == 2 && len(opOut.Value) == 3
+//@   ensures implies(isnil(err), sameval(opOut.MetaData.PlaintextMetaData.Scale, old(op0.MetaData.PlaintextMetaData.Scale)))
+//@   ensures implies(isnil(err), len(opOut.Value) == len(op0.Value) && val(opOut.Value[1]) == old(val(op0.Value[1])))
+
+// ---- Rescale: on success the receiver has the degree and the flags of the input whatever it held, every
+// ---- index is in range, and an input without enough levels is refused with an error
+//@ afunc Evaluator.Rescale
+//@   property C06
+//@   safety index
+//@   case len(op0.Value) == 2 && len(opOut.Value) == 2
+//@   case len(op0.Value) == 3 && len(opOut.Value) == 2
+//@   case len(op0.Value) == 2 && len(opOut.Value) == 3
+//@   case len(op0.Value) == 3 ; alias opOut = op0
+//@   requires len(op0.Value[0].Coeffs) >= 1 && len(opOut.Value[0].Coeffs) >= 1
+//@   ensures implies(isnil(err), len(opOut.Value) == len(op0.Value))
+//@   ensures implies(isnil(err), iff(opOut.MetaData.CiphertextMetaData.IsNTT, old(op0.MetaData.CiphertextMetaData.IsNTT)) && iff(opOut.MetaData.PlaintextMetaData.IsBatched, old(op0.MetaData.PlaintextMetaData.IsBatched)))
+//@   ensures implies(old(len(op0.Value[0].Coeffs)) == 1, !isnil(err))
+
+// ---- ciphertext * ciphertext without relinearisation: the degree-2 tensor (a0*b0, a0*b1 + a1*b0, a1*b1),
+// ---- out of the Montgomery domain, output of degree 2, also when the receiver is one of the operands
+//@ afunc Evaluator.Mul#ct
+//@   property C06
+//@   dyn op1 *rlwe.Ciphertext
+//@   case len(op0.Value) == 2 && len(op1.Value) == 2 && len(opOut.Value) == 2
+//@   case len(op0.Value) == 2 && len(op1.Value) == 2 && len(opOut.Value) == 3
+//@   case len(op0.Value) == 2 && len(op1.Value) == 2 ; alias opOut = op1
+//@   case len(op0.Value) == 2 && len(op1.Value) == 2 ; alias opOut = op0
+//@   requires isntt(op0.Value[0]) && isntt(op0.Value[1]) && isntt(op1.Value[0]) && isntt(op1.Value[1]) && mexp(op0.Value[0]) == 0 && mexp(op0.Value[1]) == 0 && mexp(op1.Value[0]) == 0 && mexp(op1.Value[1]) == 0
+//@   ensures implies(isnil(err), len(opOut.Value) == 3)
+//@   ensures implies(isnil(err), val(opOut.Value[0]) == old(val(op0.Value[0])) * old(val(op1.Value[0])))
+//@   ensures implies(isnil(err), val(opOut.Value[1]) == old(val(op0.Value[0])) * old(val(op1.Value[1])) + old(val(op0.Value[1])) * old(val(op1.Value[0])))
+//@   ensures implies(isnil(err), val(opOut.Value[2]) == old(val(op0.Value[1])) * old(val(op1.Value[1])))
+//@   ensures implies(isnil(err), mexp(opOut.Value[0]) == 0 && mexp(opOut.Value[1]) == 0 && mexp(opOut.Value[2]) == 0)
